@@ -148,6 +148,35 @@ def main():
             out["oracle_bad"].append({"oracle": "program:" + name, "x": x.tolist(),
                                       "problems": ["raised (a write into read-only memory raises ValueError): %r" % (ex,)],
                                       "site": {"oracle": "purity"}})
+    # ---- (B') the optimisers built on grad: the caller's starting point and the parameters handed to earlier callbacks
+    #      are not written later ----
+    try:
+        from autograd.misc.optimizers import sgd, rmsprop, adam
+        from autograd import grad as _gr
+        for oname, opt in (("sgd", sgd), ("rmsprop", rmsprop), ("adam", adam)):
+            for x0 in (onp.array([1.0, -2.0, 0.5]), [onp.array([1.0, -2.0]), onp.array([[0.5]])], {"a": onp.array([1.0, -2.0]), "b": 0.5}):
+                out["oracle_n"] += 1
+                out["oracle_keys"].append("optimizer:%s:%s" % (oname, type(x0).__name__))
+                dist("program:optimizer")
+                snap = json.dumps(x0, default=lambda a: onp.asarray(a).tolist())
+                seen = []
+
+                def loss(p_, i_):
+                    leaves = [p_] if isinstance(p_, onp.ndarray) or hasattr(p_, "_value") and not isinstance(p_._value, (list, dict)) else                         (list(p_.values()) if isinstance(getattr(p_, "_value", p_), dict) else list(p_))
+                    return sum(anp.sum(l_ * l_) for l_ in leaves)
+
+                def cb(p_, i_, g_):
+                    seen.append((p_, json.dumps(p_, default=lambda a: onp.asarray(a).tolist())))
+                opt(_gr(loss), x0, callback=cb, num_iters=4, step_size=0.1)
+                probs = []
+                if json.dumps(x0, default=lambda a: onp.asarray(a).tolist()) != snap:
+                    probs.append("%s modified the starting point it was given" % oname)
+                if any(json.dumps(p_, default=lambda a: onp.asarray(a).tolist()) != s_ for p_, s_ in seen):
+                    probs.append("%s later modified parameters it had handed to a callback" % oname)
+                if probs:
+                    out["oracle_bad"].append({"oracle": "optimizer:" + oname, "x": snap, "problems": probs, "site": {"oracle": "purity"}})
+    except Exception as ex:
+        out["oracle_bad"].append({"oracle": "optimizer", "problems": ["raised %r" % (ex,)], "site": {"oracle": "purity"}})
     # ---- (C) random polynomial DAGs over arrays: every accumulation order and sharing pattern ----
     from autograd.builtins import tuple as atuple, list as alist
     for rep in range(cfg.get("n_dags", 0)):
